@@ -906,8 +906,24 @@ func (x *Exec) namedType(name string) types.Type {
 
 // atCall proves the caller's `atcall <callee> <expr>` clauses at a call site of the function under analysis.
 func (x *Exec) atCall(st *State, fr *Frame, key string, args []V, site ssa.Instruction) {
-	if x.con == nil || fr.depth != 0 {
+	if x.con == nil {
 		return
+	}
+	// a call made by a helper that is executed in place counts as a call of the function under contract: the
+	// clause is evaluated over that function's variables and call records (arg<i> are the arguments at the site)
+	siteFr := fr
+	if fr.depth != 0 {
+		if len(st.frames) == 0 || st.frames[0].depth != 0 {
+			return
+		}
+		// ... unless the helper (or one between it and the function) has a contract of its own: what happens inside
+		// it is that contract's business (an element reader's errors are not the caller's own)
+		for _, f := range st.frames[1:] {
+			if c, _ := x.contractFor(f.fn); c != nil {
+				return
+			}
+		}
+		fr = st.frames[0]
 	}
 	for i, ac := range x.con.AtCalls {
 		if ac.Name != key {
@@ -938,7 +954,7 @@ func (x *Exec) atCall(st *State, fr *Frame, key string, args []V, site ssa.Instr
 				env.cells[fv.Name()] = cv
 			}
 		}
-		name := x.instrName(fr, site, "call") + fmt.Sprintf(".atcall%d(%s)", i+1, key)
+		name := x.instrName(siteFr, site, "call") + fmt.Sprintf(".atcall%d(%s)", i+1, key)
 		t, err := env.evalBool(ac.Expr)
 		if err != nil {
 			x.genFail(name, "atcall", ac.Tags, x.posOf(site.Pos()), err.Error())
